@@ -17,6 +17,7 @@ def literal(rng, kind=None):
         s = rng.choice([" ;", "a ; b", "x ;", "; ", "{ }", " { ", " #c", "# x", "set", " set uri ", "}", ";;", "  ", "a  b", "print;",
                         # literals that span lines (raw line breaks and tabs inside the quotes denote themselves)
                         "line1\nline2", "a\r\nb", "\n", "\tx\n", "GET /x\nHost: h\n\n", "# c\n;",
+                        "a\n   \nb", "x\n\t\ny", " \n \n ", "line one\n    line two\n    line three", "\n\n",
                         # values that are also defaults / reserved words of the language
                         "default", "default", "Default", "true", "false", "0", "",
                         None, None, None])
